@@ -598,6 +598,22 @@ def r04_6(run):
             for n in g.nodes_containing(c):
                 rds = reaching_defs(g, n, arg.id)
                 vals = [def_value(r, arg.id) for r in rds]
+                # follow plain copies (a temporary an inlined helper left), and drop "None" definitions when the call is behind
+                # an "is not None" / truthiness test of the name
+                for _ in range(3):
+                    nxt = []
+                    for r, v in zip(rds, vals):
+                        if isinstance(v, ast.Name):
+                            r2 = reaching_defs(g, r, v.id)
+                            nxt += [(x, def_value(x, v.id)) for x in r2]
+                        else:
+                            nxt.append((r, v))
+                    rds, vals = [a for a, _ in nxt], [b for _, b in nxt]
+                tested = established(g, n, 'same', lambda t: dotted(t.left) == arg.id and is_none(t.comparators[0]), positive=False) or \
+                    any(lab == 'T' for _, lab in g.guarded_by(n, lambda t: dotted(t) == arg.id))
+                if tested:
+                    keep = [(r, v) for r, v in zip(rds, vals) if not (v is not None and is_none(v))]
+                    rds, vals = [a for a, _ in keep], [b for _, b in keep]
                 ok = bool(vals) and all(isinstance(v, ast.Call) and (dotted(v.func) or '').split('.')[-1] == 'unescape_quoted_string'
                                         for v in vals)
                 why = ', '.join(src(v) if v is not None else '<param/undefined>' for v in vals)
